@@ -125,7 +125,7 @@ def plan_for(prop, tier, seed):
             P.add(bw("hard_lm2", kind, suffix="_e"), "E:m=lm,L=%d" % L)
             P.add(cw("w123", kind, suffix="_e"), "E:m=lm,L=%d" % (2 if q else 3))
             # concrete prefix + 2 symbolic tail bytes, for every proper prefix shape of interest
-            pres = ["6162", "616263", "78616263"] if q else ["61", "6162", "616263", "6263", "78616263", "6162637861"]
+            pres = ["6162", "616263"] if q else ["61", "6162", "616263", "6263", "78616263", "6162637861"]
             for pre in pres:
                 P.add(bw("hard_lm", kind, suffix="_p" + pre), "E:m=lm,L=2,pre=" + pre)
             if not q:
@@ -163,7 +163,9 @@ def plan_for(prop, tier, seed):
         P.add(Entry("bw_val_lm", "bytewise", "longest", base, vtype="i64", values=[0, 2 ** 64 - 1, 7, 7, 9]), "T34")
         P.add(Entry("bw_val_lf", "bytewise", "first", base, vtype="u16", values=[0, 65535, 7, 7, 9]), "T34")
         P.add(bw("find_reset", suffix="_ev"), "E:m=ovl,L=2")
-        P.hand += ["u_val::" + h for h in (["bw_u8", "bw_u128", "bw_i64", "bw_empty", "cw_u16", "cw_i128", "cw_usize", "cw_empty"] if q else U_VAL_ALL)]
+        from .hand import U_VAL_NAMES
+        quick_vals = [n for n in U_VAL_NAMES if n.split("_")[1] in ("u8", "u128", "i64", "empty", "usize")]
+        P.hand += ["u_val::" + h for h in (quick_vals if q else U_VAL_NAMES)]
     elif prop == "C07":
         fams = ("T5",)
         for n in ("unit", "bin", "blk_1_2", "fan", "blk_2_2"):
@@ -212,10 +214,8 @@ def plan_for(prop, tier, seed):
                    "i_cw::step_no_suffix", "i_cw::find_two_calls", "i_cw::leftmost_two_calls"]
     elif prop == "C09":
         P.hand += (U_SER_QUICK if q else U_SER_ALL)
-        # A-ser: concrete tiny images, field-order symmetry of the whole-automaton (de)serializers
-        P.hand += ["a_ser::cw_image", "a_ser::cw_image_lm"]
-        if not q:
-            P.hand += ["a_ser::cw_image_u128", "a_ser::cw_image_u8"]
+        # A-img: whole images with 0 / 1 element per vector, symbolic content (larger images: out of reach)
+        P.hand += ["a_img::bw_image_0", "a_img::bw_image_1", "a_img::cw_image_0", "a_img::cw_image_1"]
     elif prop == "C11":
         vals = (1, 2, 16) if q else (1, 2, 3, 16, 64)
         fams = ("T1", "T5") if q else ("T1", "T2", "T34", "T6")
@@ -282,9 +282,6 @@ def plan_for(prop, tier, seed):
         raise SystemExit("property %s is not claimed (see MANIFEST.json not_applicable)" % prop)
     return P
 
-
-U_VAL_ALL = ["%s_%s" % (v, t) for v in ("bw", "cw") for t in
-             ("u8", "u16", "u32", "u64", "u128", "i8", "i16", "i32", "i64", "i128", "usize", "isize", "empty")]
 
 _SER_T = ("u8", "u16", "u32", "u64", "u128", "i8", "i16", "i32", "i64", "i128", "usize", "isize")
 U_SER_ALL = (["u_ser::prim_%s" % t for t in _SER_T]
